@@ -261,5 +261,15 @@ def multiply_refusals(ctx: Ctx) -> list[Ob]:
             "KroneckerLayer",
             "disjoint-different-size",
             "layers over disjoint scopes with different sizes must be refused, not multiplied",
-        )
+        ),
+        r8.dominates_call(
+            ctx,
+            q,
+            {"sc1.scope != sc2.scope": False, "are_compatible(sc1, sc2)": True, "pair in layers_to_block": False,
+             "sc1.layer_scope(l1) & sc2.layer_scope(l2)": True, "sc1.layer_scope(l1) != sc2.layer_scope(l2)": True},
+            "func",
+            "overlap-different-scope",
+            "a pair of layers whose scopes overlap without being equal (outputs of multi-output operands over different scopes) has no product rule: "
+            "multiplying their inputs pairwise yields a product layer with overlapping inputs, i.e. a result that is not decomposable -- the pair must be refused",
+        ),
     ]
